@@ -160,6 +160,37 @@ def starts_case(ctx, case):
             elif len(feas_c) >= k and len(set(mine)) != len(mine):
                 ctx.violation(sig_of(cfg, q="start_duplicates", **label), f"instance {b} has {len(feas_c)} feasible starts but its {k} forced starts repeat: {mine}", dict(k=k, B=B, row=b, starts=mine, feasible=feas))
             ctx.nontrivial_case(dict(e=name, k=k, m=mask[b].int().tolist(), s=mine))
+    # ---- the random start rule used by SamplingEval and FJSP multi-start: rl4co.utils.ops.sample_n_random_actions --------
+    from rl4co.utils.ops import sample_n_random_actions
+
+    n_cust = mask[:, 1:].sum(1)
+    lo = int(n_cust.min())
+    for k in sorted(set(x for x in (lo - 1, lo, lo + 1, 2, int(n_cust.max())) if x >= 1)):
+        torch.manual_seed(seed + 100 + k)
+        try:
+            sel = sample_n_random_actions(td.clone(), k)
+        except Exception as e:
+            ctx.evaluation()
+            ctx.violation(sig_of(cfg, q="random_starts_raise", exc=type(e).__name__), f"sample_n_random_actions(n={k}) raised {type(e).__name__}: {str(e)[:160]}", dict(k=k, B=B))
+            continue
+        ctx.count("c12_random_start_calls")
+        if sel.numel() != k * B:
+            ctx.evaluation()
+            ctx.violation(sig_of(cfg, q="start_shape", rule="random"), f"sample_n_random_actions(n={k}) returned {tuple(sel.shape)} for batch {B}", dict(k=k, B=B))
+            continue
+        sel2 = sel.reshape(k, B)
+        for b in range(B):
+            ctx.evaluation()
+            ctx.count("c12_random_start_rows")
+            mine = sel2[:, b].tolist()
+            bad = [a for a in mine if a < 0 or a >= mask.shape[1] or not bool(mask[b, a])]
+            label = dict(rule="random", boundary=(k == int(n_cust[b])), mixed=bool(int(n_cust.min()) != int(n_cust.max())))
+            if bad:
+                ctx.violation(sig_of(cfg, q="start_infeasible", **label), f"random forced start(s) {bad} of instance {b} are not in its reset mask", dict(k=k, B=B, row=b, starts=mine, mask=mask[b].int().tolist()))
+            elif int(n_cust[b]) >= k and len(set(mine)) != len(mine):
+                ctx.violation(sig_of(cfg, q="start_duplicates", **label), f"instance {b} has {int(n_cust[b])} feasible non-depot starts but its {k} random forced starts repeat: {mine} (fewest in the batch: {lo})",
+                              dict(k=k, B=B, row=b, starts=mine, n_feasible=n_cust.tolist()))
+            ctx.nontrivial_case(dict(e=name, k=k, m=mask[b].int().tolist(), s=mine, r="random"))
     ctx.sample(dict(case=case, default_num_starts=default_k))
 
 
